@@ -124,7 +124,9 @@ def load_file(src_root, rel, modpath, cfg, counts, out):
                 counts['D2:mod ' + name] = 1
                 out.append(Line('', ('src', rel, lineno)))
                 continue
-            bu = '' if (modpath + [name])[0] == 'dcs' else ' broadcast use {crate::dcs::group_dcs_params, crate::vf::group_trace};'
+            top_ = (modpath + [name])[0]
+            bu = '' if top_ == 'dcs' else (' broadcast use {crate::dcs::group_dcs_params, crate::vf::group_trace};' if top_ == 'interface'
+                                          else ' broadcast use {crate::dcs::group_dcs_params, crate::vf::group_trace, crate::interface::lemma_enc_all_one};')
             out.append(Line('%s%smod %s { #[allow(unused_imports)] use vstd::prelude::*; #[allow(unused_imports)] use vstd::std_specs::iter::IteratorSpec; #[allow(unused_imports)] use crate::vf::*;%s' % (mm.group(1), mm.group(2), name, bu), ('src', rel, lineno)))
             load_file(src_root, found[0], modpath + [name], cfg, counts, out)
             out.append(Line('%s}' % mm.group(1), ('src', rel, lineno)))
@@ -180,6 +182,10 @@ REGEX_RULES = [
     ('R15:try_into-unwrap', r"let chunk: &mut \[u8; N\] = chunk\.try_into\(\)\.unwrap\(\);", r"let chunk: &mut [u8; N] = crate::vf::slice_as_array_mut(chunk);"),
     ('R16:cmp-min', r"core::cmp::min\(", r"crate::vf::min_u32("),
     ('R9:into_iter', r"\b(pixels|item_pixels|colors)\.into_iter\(\)", r"crate::vf::into_iter(\1)"),
+    ('D6:reject-recursive', r"pub struct (RowIterator|BlockIterator)<C, (P|R)>", r"#[verifier::reject_recursive_types(C)] #[verifier::reject_recursive_types(\2)] pub struct \1<C, \2>"),
+    ('D6:reject-recursive', r"pub struct (PixelRow|PixelBlock)<C>", r"#[verifier::reject_recursive_types(C)] pub struct \1<C>"),
+    ('R20:hoist-map-call', r"di\.send_pixels\(crate::vf::into_iter\(pixels\)\.map\((rgb565_to_bytes|rgb666_to_bytes|rgb565_to_u16)\)\)", r"crate::interface::vf_send_mapped_\1(di, pixels)"),
+    ('R22:let-normal-once', r"self\.set_pixels\(x, y, x, y, core::iter::once\(color\)\)", r"{ let vf_once = core::iter::once(color); let ghost vf_gonce = vf_once; let vf_r = self.set_pixels(x, y, x, y, vf_once); proof { assert(crate::vf::iter_lawful(vf_gonce)); assert(vf_gonce.remaining() == seq![color]); assert(crate::vf::iter_yields(vf_gonce) == vf_gonce.remaining()); assert(crate::vf::iter_yields(vf_gonce).len() == 1); assert(crate::vf::iter_yields(vf_gonce)[0] == color);  } vf_r }"),
     ('R5:sized', r"pub trait InterfacePixelFormat<Word> \{", r"pub trait InterfacePixelFormat<Word>: Sized {"),
     ('R11:to_be_bytes', r"&self\.(\w+)\.to_be_bytes\(\)", r"&crate::vf::u16_to_be_bytes(self.\1)"),
     ('R11:to_be_bytes', r"self\.(\w+)\.to_be_bytes\(\)", r"crate::vf::u16_to_be_bytes(self.\1)"),
@@ -276,7 +282,14 @@ def rewrite_impl_trait_args(text, counts):
         mm = re.search(r'(\w+): impl IntoIterator<Item = ([^>]*)>', sig)
         if not mm:
             continue
-        bound = 'VfP: IntoIterator<Item = %s>' % mm.group(2)
+        item_ty = mm.group(2)
+        if f.ctx == 'impl' and re.fullmatch(r'Self', item_ty.strip()):
+            # inside an impl, spell `Self` as the implementing type (same type; this Verus does not resolve vstd's iterator
+            # specifications through the `Self` alias)
+            ctxname = f.key.split('::')[-2]
+            item_ty = re.match(r'&?(?:mut)?(\w+)', ctxname).group(1)
+            counts['R17:Self-spelled-out'] = counts.get('R17:Self-spelled-out', 0) + 1
+        bound = 'VfP: IntoIterator<Item = %s>' % item_ty
         new = sig[:mm.start()] + '%s: VfP' % mm.group(1) + sig[mm.end():]
         g = re.match(r'fn\s+\w+\s*<', new)
         if g:
@@ -292,6 +305,35 @@ def rewrite_impl_trait_args(text, counts):
         counts['R17:impl-trait-arg-named'] = counts.get('R17:impl-trait-arg-named', 0) + 1
     for a, b, t in sorted(edits, reverse=True):
         text = text[:a] + t + text[b:]
+    return text
+
+
+TWINS = [
+    # (impl header regex, replacement header, `type Item` line regex, fn signature regex, replacement signature)
+    ('R19:BlockIterator::next-as-inherent',
+     r"impl<C, R> Iterator for BlockIterator<C, R>", "impl<C, R> BlockIterator<C, R>",
+     r"type Item = PixelBlock<C>;", r"fn next\(&mut self\) -> Option<Self::Item> \{", "fn vf_next(&mut self) -> Option<PixelBlock<C>> {"),
+]
+
+
+def rewrite_twins(text, counts):
+    """R19: a trait method implementation cannot declare `requires` in Verus.  For `BlockIterator::next` (whose body
+    needs caller-provided facts even to be free of arithmetic overflow) the body is verified as the inherent method
+    `vf_next` (same text, header edited in place); contracts/verus/batch.vc re-adds `impl Iterator for BlockIterator`
+    whose `next` is an external_body shell `{ self.vf_next() }` carrying the same contract in conditional form."""
+    for name, h_re, h_new, item_re, sig_re, sig_new in TWINS:
+        mh = re.search(h_re, text)
+        if not mh:
+            raise Undecided(name + ': impl header not found')
+        text = text[:mh.start()] + h_new + text[mh.end():]
+        mi = re.compile(item_re).search(text, mh.start())
+        ms = re.compile(sig_re).search(text, mh.start())
+        if not mi or not ms:
+            raise Undecided(name + ': Item / fn next not found')
+        text = text[:mi.start()] + ' ' * (mi.end() - mi.start()) + text[mi.end():]
+        ms = re.compile(sig_re).search(text, mh.start())
+        text = text[:ms.start()] + sig_new + text[ms.end():]
+        counts[name] = 1
     return text
 
 
@@ -379,6 +421,7 @@ def apply_rewrites(lines, counts, extra_rules=(), contracts=None):
         if k:
             counts[name] = counts.get(name, 0) + k
     text = rewrite_impl_trait_args(text, counts)
+    text = rewrite_twins(text, counts)
     text = rewrite_question_mark(text, counts, contracts or {})
     text = rewrite_forloops(text, contracts or {}, counts)
     if text.count('\n') != n0:
@@ -401,6 +444,7 @@ class Contract:
         self.loops = OrderedDict()   # ordinal -> list of text lines (invariant/decreases clauses)
         self.ats = []           # (regex, where 'before'|'after', text lines)
         self.body_prefix = []   # proof text inserted at the start of the body
+        self.tail = None        # R21: (name, proof lines): the tail expression E becomes `let name = E; <proof> name`
         self.replace_sig = []   # (regex, repl) applied to the signature text only
         self.forloops = OrderedDict()  # ordinal -> (itname, mode)
         self.pre = OrderedDict()       # ordinal -> lines placed inside the desugared block before the loop
@@ -435,7 +479,7 @@ def parse_vc(path):
                 cur = None
                 sect = None
                 continue
-            m = re.match(r'^  (\w+)(?:\s+(.*))?$', ln)
+            m = re.match(r'^  ([\w@]+)(?:\s+(.*))?$', ln)
             if m and not ln.startswith('   '):
                 kw, arg = m.group(1), (m.group(2) or '').strip()
                 if kw == 'ret':
@@ -473,7 +517,10 @@ def parse_vc(path):
                     sect = cur.onerr
                 elif kw == 'body':
                     sect = cur.body_prefix
-                elif kw in ('before', 'after', 'beforelast', 'afterlast'):
+                elif kw == 'tail':
+                    cur.tail = (arg.strip(), [])
+                    sect = cur.tail[1]
+                elif re.fullmatch(r'(before|after)(last|@\d+)?', kw):
                     lst = []
                     cur.ats.append((arg, kw, lst))
                     sect = lst
@@ -620,6 +667,44 @@ def splice(lines, contracts, injections, counts, report, externals=(), canary=Fa
                 lost.append('fn %s: body text but no body' % key)
             else:
                 ins.append((f.open + 1, 1, '\n' + '\n'.join(c.body_prefix) + '\n', tag))
+        if c.tail:
+            # R21: the function's tail expression E (everything after the last top-level `;` of the body) is bound to a
+            # name so that proof text can follow it: `E }` -> `let name = E; proof text; name }`
+            if not f.has_body:
+                lost.append('fn %s: tail but no body' % key)
+            else:
+                depth = 0
+                last = f.open
+                for i_ in range(f.open + 1, f.close):
+                    ch = m[i_]
+                    if ch in '([{':
+                        depth += 1
+                    elif ch in ')]}':
+                        depth -= 1
+                    elif ch == ';' and depth == 0:
+                        last = i_
+                st_ = last + 1
+                while st_ < f.close and m[st_] in ' \t\n':
+                    st_ += 1
+                en_ = f.close
+                while en_ > st_ and m[en_ - 1] in ' \t\n':
+                    en_ -= 1
+                d2 = 0
+                simple = en_ > st_
+                for i_ in range(st_, en_):
+                    ch = m[i_]
+                    if ch in '([{':
+                        d2 += 1
+                    elif ch in ')]}':
+                        d2 -= 1
+                        if d2 == 0 and ch == '}' and i_ + 1 < en_ and m[i_ + 1:en_].strip() and not re.match(r'\s*(else|\.|\?)', m[i_ + 1:en_]):
+                            simple = False
+                if not simple or re.match(r'(let|return|while|for|loop)\b', m[st_:en_]):
+                    lost.append('fn %s: tail expression not found' % key)
+                else:
+                    ins.append((st_, 0, 'let %s = ' % c.tail[0], tag))
+                    ins.append((en_, 1, ';\n' + '\n'.join(c.tail[1]) + '\n' + c.tail[0] + '\n', tag))
+                    counts['R21:tail-bound'] = counts.get('R21:tail-bound', 0) + 1
         if c.loops or c.pre or c.post:
             if not f.has_body:
                 lost.append('fn %s: loop clauses but no body' % key)
@@ -650,6 +735,11 @@ def splice(lines, contracts, injections, counts, report, externals=(), canary=Fa
             if where.endswith('last') and hits:
                 hits = hits[-1:]
                 where = where[:-4]
+            mo = re.fullmatch(r'(before|after)@(\d+)', where)
+            if mo:
+                n_ = int(mo.group(2))
+                hits = hits[n_ - 1:n_] if len(hits) >= n_ else []
+                where = mo.group(1)
             if len(hits) != 1:
                 lost.append('fn %s: anchor %r matched %d times' % (key, rx, len(hits)))
                 continue
@@ -913,7 +1003,7 @@ def extract(repo, verif, cfg, extra_external=(), canary=False):
     body = splice(lines, contracts, injections, counts, report, externals, canary=canary)
     prelude = open(os.path.join(verif, 'contracts', 'prelude.rs')).read().split('\n')
     head = ['#![allow(unused_imports, dead_code, unused_variables, unused_mut, unused_assignments, unused_parens, non_snake_case)]',
-            'use vstd::prelude::*;', 'verus! {', 'global size_of usize == 8;', '#[allow(unused_imports)] use crate::vf::*;', '#[allow(unused_imports)] use vstd::std_specs::iter::IteratorSpec;', 'broadcast use {crate::dcs::group_dcs_params, crate::vf::group_trace};']
+            'use vstd::prelude::*;', 'verus! {', 'global size_of usize == 8;', '#[allow(unused_imports)] use crate::vf::*;', '#[allow(unused_imports)] use vstd::std_specs::iter::IteratorSpec;', 'broadcast use {crate::dcs::group_dcs_params, crate::vf::group_trace, crate::interface::lemma_enc_all_one};']
     out = [Line(t, ('gen', 'header')) for t in head]
     out += [Line(t, ('gen', 'prelude.rs:%d' % (i + 1))) for i, t in enumerate(prelude)]
     out += body
